@@ -271,7 +271,7 @@ macro_rules! stubbed {
         #[kani::stub(crate::instruction::prefix_op::not::exec, s_not)]
         pub fn $name() {
             // declared shape of every tree in these harnesses (see lib/patch.py apply_gating)
-            crate::instruction::verif_gate::allow(&[crate::instruction::verif_gate::K_VARIABLE, crate::instruction::verif_gate::K_BINOPERATION, crate::instruction::verif_gate::K_UNARYOPERATION]);
+            crate::instruction::verif_gate::allow_mask((1 << crate::instruction::verif_gate::K_VARIABLE) | (1 << crate::instruction::verif_gate::K_BINOPERATION) | (1 << crate::instruction::verif_gate::K_UNARYOPERATION));
             $body
         }
     };
@@ -405,16 +405,16 @@ fn pfold_left(op: BinOperator, kind: u8, which: u8) {
     partial_fold(op, kind, which, false)
 }
 
-stubbed! { pub fn t_fold_right_a() { each_const!(pfold_right; Add, Subtract, Multiply); kani::cover!(true); } }
+stubbed! { #[cfg(feature = "verif_thorough")] pub fn t_fold_right_a() { each_const!(pfold_right; Add, Subtract, Multiply); kani::cover!(true); } }
 stubbed! { pub fn t_fold_right_b() { each_const!(pfold_right; Divide, Modulo, Pow); kani::cover!(true); } }
 stubbed! { pub fn t_fold_right_c() { each_const!(pfold_right; LShift, RShift, BitwiseAnd); kani::cover!(true); } }
-stubbed! { pub fn t_fold_right_d() { each_const!(pfold_right; BitwiseOr, Xor, Equal, NotEqual); kani::cover!(true); } }
-stubbed! { pub fn t_fold_right_e() { each_const!(pfold_right; Greater, GreaterOrEqual, Lower, LowerOrEqual); kani::cover!(true); } }
+stubbed! { #[cfg(feature = "verif_thorough")] pub fn t_fold_right_d() { each_const!(pfold_right; BitwiseOr, Xor, Equal, NotEqual); kani::cover!(true); } }
+stubbed! { #[cfg(feature = "verif_thorough")] pub fn t_fold_right_e() { each_const!(pfold_right; Greater, GreaterOrEqual, Lower, LowerOrEqual); kani::cover!(true); } }
 stubbed! { pub fn t_fold_left_a() { each_const!(pfold_left; Add, Subtract, Multiply); kani::cover!(true); } }
-stubbed! { pub fn t_fold_left_b() { each_const!(pfold_left; Divide, Modulo, Pow); kani::cover!(true); } }
-stubbed! { pub fn t_fold_left_c() { each_const!(pfold_left; LShift, RShift, BitwiseAnd); kani::cover!(true); } }
-stubbed! { pub fn t_fold_left_d() { each_const!(pfold_left; BitwiseOr, Xor, Equal, NotEqual); kani::cover!(true); } }
-stubbed! { pub fn t_fold_left_e() { each_const!(pfold_left; Greater, GreaterOrEqual, Lower, LowerOrEqual); kani::cover!(true); } }
+stubbed! { #[cfg(feature = "verif_thorough")] pub fn t_fold_left_b() { each_const!(pfold_left; Divide, Modulo, Pow); kani::cover!(true); } }
+stubbed! { #[cfg(feature = "verif_thorough")] pub fn t_fold_left_c() { each_const!(pfold_left; LShift, RShift, BitwiseAnd); kani::cover!(true); } }
+stubbed! { #[cfg(feature = "verif_thorough")] pub fn t_fold_left_d() { each_const!(pfold_left; BitwiseOr, Xor, Equal, NotEqual); kani::cover!(true); } }
+stubbed! { #[cfg(feature = "verif_thorough")] pub fn t_fold_left_e() { each_const!(pfold_left; Greater, GreaterOrEqual, Lower, LowerOrEqual); kani::cover!(true); } }
 
 /// compound assignment: yields and stores kernel(old content, value); a failing update leaves the
 /// cell unchanged
